@@ -51,3 +51,26 @@ pub fn value_json(v: &RespValue) -> String {
 }
 
 pub fn quiet_panics() { std::panic::set_hook(Box::new(|_| {})); }
+
+/// Watchdog for calls into the code under test: a call that does not return within the limit is reported as a JSON line
+/// {"mode":"hang",...} with the description of the call, and the process exits with code 3 (a livelock cannot be unwound).
+pub mod watchdog {
+    use std::sync::Mutex;
+    use std::time::{Duration, Instant};
+    static CUR: Mutex<Option<(Instant, String)>> = Mutex::new(None);
+    pub fn start(limit_ms: u64) {
+        std::thread::spawn(move || loop {
+            std::thread::sleep(Duration::from_millis(200));
+            let hung = { let g = CUR.lock().unwrap(); g.as_ref().filter(|(t, _)| t.elapsed() > Duration::from_millis(limit_ms)).map(|(_, d)| d.clone()) };
+            if let Some(d) = hung {
+                println!("{{\"mode\":\"hang\",\"limit_ms\":{limit_ms},\"call\":{d}}}");
+                use std::io::Write;
+                let _ = std::io::stdout().flush();
+                std::process::exit(3);
+            }
+        });
+    }
+    /// `desc` must be a JSON value
+    pub fn enter(desc: String) { *CUR.lock().unwrap() = Some((Instant::now(), desc)); }
+    pub fn leave() { *CUR.lock().unwrap() = None; }
+}
